@@ -10,7 +10,7 @@ from .splinelat import RealSpline, describe, jsonable_par
 # clause -> property
 CLAUSES = {
     # C09
-    "box_point_not_mapped": "C09", "not_monotone": "C09", "leaves_box": "C09", "endpoint_not_pinned": "C09", "tail_not_identity": "C09",
+    "box_point_not_mapped": "C09", "inverse_not_monotone": "C09", "not_monotone": "C09", "leaves_box": "C09", "endpoint_not_pinned": "C09", "tail_not_identity": "C09",
     "discontinuous_at_knot": "C09", "discontinuous_at_tail_bound": "C09", "nonpositive_derivative": "C09",
     # C17
     "in_domain_rejected": "C17", "in_domain_crash": "C17", "in_domain_nonfinite": "C17", "out_of_domain_accepted": "C17",
@@ -40,8 +40,8 @@ def eval_case(case, want, dtypes=("float64", "float32"), variant=0):
 
     def add(clause, detail, **kw):
         prop = CLAUSES[clause]
-        if variant == 3 and prop != "C19":
-            return  # off the lattice: only float32 against float64 is meaningful
+        if variant == 3 and prop != "C19" and clause != "inverse_not_monotone":
+            return  # off the lattice: only float32 against float64 (and the gross inverse relations) are meaningful
         if prop in want or prop == "drift":
             d = {"clause": clause, "prop": prop, "detail": detail, "fam": par["fam"], "tails": par["tails"], "par": jsonable_par(par), "desc": describe(par)}
             if variant:
@@ -156,6 +156,30 @@ def eval_case(case, want, dtypes=("float64", "float32"), variant=0):
                     add("endpoint_not_pinned", "f(left) = %.17g, f(right) = %.17g for box [%s, %s]" % (float(yd[0]), float(yd[-1]), bottom, top), **tag)
                 if bool((gl.double() == -float("inf")).any()) or bool(torch.isnan(gl).any()):
                     add("nonpositive_derivative", "logabsdet is -inf / nan at an in-domain point", **tag)
+                # the inverse of a bijection of the box is one too: on the images of the grid (knots and their
+                # float neighbours included) it is increasing and returns to the grid - gross tolerances only,
+                # the accuracy of the inverses is C02's business
+                oc_i, gx, _ = rs.call(gy.clamp(bot_dt, top_dt), inverse=True)
+                if oc_i == "Value" and bool(torch.isfinite(gx).all()):
+                    gx_d = gx.double()
+                    wdt = right - left
+                    back = (gx_d - g.double()).abs()
+                    if float(back.max()) > 2e-2 * wdt:
+                        i = int(back.argmax())
+                        add("inverse_not_monotone", "inverse(f(%.9g)) = %.9g: the inverse leaves the pre-image by %.3g (box width %.3g)" % (float(g[i]), float(gx[i]), float(back[i]), wdt), **tag)
+                    elif (variant == 3 or dtn == "float64") and not par["tails"] or (variant == 3 and par["tails"]):
+                        # a uniform grid of 1001 values of the range, far coarser than the resolution of the
+                        # precision: their pre-images are distinct and ordered (no plateaus, no steps back)
+                        fine = torch.linspace(float(bot_dt), float(top_dt), 1001, dtype=torch.float64).to(dt)
+                        oc_f, fx, _ = rs.call(fine, inverse=True)
+                        if oc_f == "Value" and bool(torch.isfinite(fx).all()):
+                            flat = int((fx[1:] <= fx[:-1]).sum())
+                            if flat:
+                                i = int((fx[1:] <= fx[:-1]).nonzero()[0])
+                                add("inverse_not_monotone", "the inverse is not strictly increasing on a uniform grid of 1001 values: %d of 1000 steps do not increase (first at y = %.9g: %.9g then %.9g)" % (flat, float(fine[i]), float(fx[i]), float(fx[i + 1])), **tag)
+                    if bool((gx_d[1:] < gx_d[:-1] - 5e-3 * wdt).any()):
+                        i = int((gx_d[1:] < gx_d[:-1] - 5e-3 * wdt).nonzero()[0])
+                        add("inverse_not_monotone", "the inverse decreases: inverse(%.9g) = %.9g > inverse(%.9g) = %.9g" % (float(gy[i]), float(gx[i]), float(gy[i + 1]), float(gx[i + 1])), **tag)
                 # continuity across knots: neighbours one ulp apart must map to close values
                 jump = (gy_d[1:] - gy_d[:-1])
                 gap = (g.double()[1:] - g.double()[:-1])
@@ -302,6 +326,10 @@ def spline_task(task):
                 f += eval_case(c, want, variant=1 + code % 2)
             if hq and len(set(hq)) == 1 and "C19" in want:
                 f += eval_case(c, {"C19"}, variant=3)
+            pc = c["par"]
+            if pc["fam"] == "cubic" and len(set(pc["ws"])) == 1 and len(set(pc["hs"])) == 1 and (want & {"C19", "C09"}):
+                # nearly flat parameters (a conditioner that starts at zero plus noise of 1e-6)
+                f += eval_case(c, want & {"C19", "C09"}, variant=3)
         except Exception as e:  # noqa
             import traceback
 
